@@ -29,8 +29,8 @@ PROPS = ['C03', 'C04']
 # domains
 
 STR_KEYS = ['k', 'key2', '(1, 3)', "('a', 3)", 'a b', 'x.y', "q'uote",
-            'ab_cd', '((1,), {})', '0f3a9c']
-IDENT_KEYS = ['d41d8cd98f', 'k1', 'ab_cd', 'Z9', 'f00', 'e3b0c44298fc1c14']
+            'ab_cd', '((1,), {})', '0f3a9c', 'TASK_1', 'K_max', 'xK_yK_z']        # the last three contain the entry-directory prefix
+IDENT_KEYS = ['d41d8cd98f', 'k1', 'ab_cd', 'Z9', 'f00', 'e3b0c44298fc1c14', 'TASK_1', 'K_max']
 INT_KEYS = [1, 2, -7, 10 ** 12]
 FLOAT_KEYS = [1.5, -0.25]
 TUPLE_KEYS = [(1, 2), ('a', 1), (1, (2, 3)), ((1,), ('k', 2))]
